@@ -170,7 +170,7 @@ func ReplayLinear(cfg *Config, root string, ops []string) ([]Finding, error) {
 		br := w.Exec(plan)
 		if !br.OK() {
 			if cfg.BlockFailure {
-				out = append(out, Finding{Clause: "block_processing_failed", Culprit: op.Kind, Disc: blockFailureDisc(br.Err), Detail: br.Err})
+				out = append(out, Finding{Clause: "block_processing_failed", Culprit: "block", Disc: blockFailureDisc(br.Err), Detail: br.Err})
 			}
 			return out, nil
 		}
@@ -217,7 +217,9 @@ func Conclude(cfg *Config, sum *Summary) int {
 			continue
 		}
 		// reproduce once linearly, without the explorer, before believing it
-		fs, err := ReplayLinear(cfg, v.Root, v.Trace)
+		rcfg := *cfg
+		rcfg.Fixture.Variant = v.Variant
+		fs, err := ReplayLinear(&rcfg, v.Root, v.Trace)
 		repro := false
 		for _, f := range fs {
 			if f.Sig() == v.Sig() {
@@ -229,10 +231,10 @@ func Conclude(cfg *Config, sum *Summary) int {
 			continue
 		}
 		nvio++
-		p := WriteReplay(&Replay{Property: cfg.Property, Engine: "W", Variant: cfg.Fixture.Variant, Root: v.Root, Ops: v.Trace, Finding: v.Finding}, nvio)
+		p := WriteReplay(&Replay{Property: cfg.Property, Engine: "W", Variant: v.Variant, Root: v.Root, Ops: v.Trace, Finding: v.Finding}, nvio)
 		fmt.Printf("VIOLATION property=%s replay=%s\n", cfg.Property, p)
 		fmt.Printf("  clause=%s culprit=%s disc=%s\n  trace=%s%v\n  %s\n", v.Clause, v.Culprit, v.Disc, v.Root, v.Trace, firstLines(v.Detail, 6))
-		vioOut = append(vioOut, map[string]interface{}{"known": false, "finding": v.Finding, "root": v.Root, "trace": v.Trace, "replay": p})
+		vioOut = append(vioOut, map[string]interface{}{"known": false, "finding": v.Finding, "variant": v.Variant, "root": v.Root, "trace": v.Trace, "replay": p})
 		exit = 1
 	}
 	vac := []string{}
@@ -263,6 +265,7 @@ func Conclude(cfg *Config, sum *Summary) int {
 			"engine":                        "W: explicit-state DFS over the real ElysApp (FinalizeBlock/Commit per transition, store rollback to backtrack)",
 			"rule":                          cfg.Rule,
 			"phases":                        phases,
+			"fixture_variants":              cfg.Variants,
 			"phases_completed":              sum.PhasesDone,
 			"shards_total":                  sum.UnitsTotal,
 			"shards_completed":              sum.UnitsDone,
